@@ -179,11 +179,23 @@ class Ctx:
         out = os.path.join(self.scratch, "vreplay_" + key)
         env = dict(os.environ)
         env.update(GOENV)
-        try:
-            shutil.copy(os.path.join(REPO, "go.sum"), os.path.join(HARNESS, "go.sum"))
-        except Exception:
-            pass
-        cmd = ["go", "build", "-tags", "verif"] + (["-race"] if race else []) + ["-o", out, "./cmd/vreplay"]
+        modargs = []
+        if os.path.realpath(REPO) == "/repo":
+            try:
+                shutil.copy(os.path.join(REPO, "go.sum"), os.path.join(HARNESS, "go.sum"))
+            except Exception:
+                pass
+        else:
+            # VERIF_REPO points at a scratch copy of the repository (mutation testing): build with an
+            # alternative go.mod whose replace directive names that copy
+            mf = os.path.join(self.scratch, "alt.go.mod")
+            with open(os.path.join(HARNESS, "go.mod")) as fh:
+                txt = fh.read().replace("=> /repo", "=> " + os.path.realpath(REPO))
+            with open(mf, "w") as fh:
+                fh.write(txt)
+            shutil.copy(os.path.join(REPO, "go.sum"), os.path.join(self.scratch, "alt.go.sum"))
+            modargs = ["-modfile=" + mf]
+        cmd = ["go", "build", "-tags", "verif"] + modargs + (["-race"] if race else []) + ["-o", out, "./cmd/vreplay"]
         t = time.time()
         p = subprocess.run(cmd, cwd=HARNESS, env=env, stdout=subprocess.PIPE, stderr=subprocess.STDOUT, text=True)
         if p.returncode != 0:
